@@ -13,6 +13,13 @@ kind 0: any one-shot serializer (+ converter) as a black box.  `res` / `dgram` i
         object (new serializer instance) makes of that single datagram / packet in isolation; the model
         (coq/IO/DgramEndpoint.v, stateless by construction) answers every recv from that table alone, so any carry-over,
         merge, split, skipped or duplicated datagram in the real endpoint / protocol / serializer is a disagreement.
+   [8, n, token, rw, rt]  the peer sends a LARGE datagram of n bytes (UDPNetworkClient over AF_INET6: up to 65527); rw/rt =
+        fresh-protocol result for the whole datagram / for its first MAX_DATAGRAM_BUFSIZE bytes (model: rw iff n <= recv size)
+   [9, pkt]  send_packet(pkt) where serializing pkt raises (RuntimeError, nothing sent, nothing remembered)
+case input = [kind, cfg, ops, impl, endpoint code, bufopt]; bufopt = [n]: SocketDatagramTransport(max_datagram_size=n).
+
+kind 3: StringLineSerializer one-shot codec, white box (coq/Frame/LineOneShot.v): all three newlines, keep_end, ascii /
+        latin-1, payloads ending in partial and repeated separators.
 kind 1/2: the one-shot interface DERIVED from the incremental one (AbstractIncrementalPacketSerializer.serialize /
         deserialize) over read_until / read_exactly test serializers; the model (coq/Frame/OneShot.v over the framers of
         coq/Frame/ReadUntil.v) computes the results itself: missing data -> error, surplus -> error.
@@ -82,7 +89,8 @@ ASSUMPTIONS = ["the kernel delivers loopback / socket-pair datagrams whole, once
                "cbor2 and msgpack are not installed: CBORSerializer and MessagePackSerializer are not exercised"]
 
 E_LIMIT, E_DECODE, E_CONVERT, E_MISSING, E_EXTRA = range(5)
-ENDPOINTS = (b"sync-endpoint", b"async-endpoint", b"udp-client", b"async-udp-client")
+ENDPOINTS = (b"sync-endpoint", b"async-endpoint", b"udp-client", b"async-udp-client", b"udp-client-v6")
+SMALL_ENDPOINTS = ENDPOINTS[:4]
 
 
 # ------------------------------------------------------------------------------------------------ serializers
@@ -168,7 +176,14 @@ def make_protocol(kind, cfg, impl):
         _, IncExact = _test_serializers()
         size, dm, cv = cfg
         return DatagramProtocol(IncExact(size, bool(dm)), _bang_converter() if cv else None)
+    if kind == 3:
+        from easynetwork.serializers.line import StringLineSerializer
+        sep, keep_end, ascii_ = cfg
+        return DatagramProtocol(StringLineSerializer(NEWLINE_NAMES[sep], encoding="ascii" if ascii_ else "latin-1",
+                                                     keep_end=bool(keep_end)))
     name = impl[1]
+    if name == b"filebased":
+        return DatagramProtocol(_record_serializer())
     if name == b"line":
         from easynetwork.serializers.line import StringLineSerializer
         return DatagramProtocol(StringLineSerializer(impl[2].decode(), encoding=impl[3].decode()))
@@ -195,18 +210,67 @@ def make_protocol(kind, cfg, impl):
     raise ValueError(f"unknown serializer {impl!r}")
 
 
+NEWLINE_NAMES = {b"\n": "LF", b"\r": "CR", b"\r\n": "CRLF"}
+
+
+def _record_serializer():
+    """a user format on FileBasedPacketSerializer using the INHERITED one-shot serialize()/deserialize():
+    packet = list of short strings; record = count byte, then (length byte, bytes) per item.  dump_to_file writes as it
+    goes, so an item that is not a str fails AFTER a partial write (what any streaming encoder does)."""
+    from easynetwork.serializers.base_stream import FileBasedPacketSerializer
+
+    class RecordSerializer(FileBasedPacketSerializer):
+        def __init__(self):
+            super().__init__(expected_load_error=(ValueError, UnicodeError))
+
+        def dump_to_file(self, packet, file):
+            file.write(bytes([len(packet)]))
+            for item in packet:
+                if not isinstance(item, str):
+                    raise TypeError("not a string")
+                raw = item.encode("ascii")
+                file.write(bytes([len(raw)]))
+                file.write(raw)
+
+        def load_from_file(self, file):
+            head = file.read(1)
+            if not head:
+                raise EOFError
+            out = []
+            for _ in range(head[0]):
+                n = file.read(1)
+                if not n:
+                    raise EOFError
+                raw = file.read(n[0])
+                if len(raw) != n[0]:
+                    raise EOFError
+                out.append(raw.decode("ascii"))
+            return out
+
+    return RecordSerializer()
+
+
 def canon(p, kind=0) -> bytes:
-    """canonical packet: raw bytes for the derived-interface test serializers, repr otherwise"""
+    """canonical packet: raw bytes for the derived-interface test serializers, the latin-1 bytes of the text for the
+    white-box line codec, repr otherwise (a digest when it is very long)"""
     if kind in (1, 2):
         return bytes(p)
+    if kind == 3:
+        return p.encode("latin-1")
     if isinstance(p, (bytearray, memoryview)):
         p = bytes(p)
-    return repr(p).encode()
+    r = repr(p).encode()
+    if len(r) > 2000:
+        import hashlib
+        return b"sha:" + hashlib.sha256(r).hexdigest()[:32].encode()
+    return r
 
 
 def uncanon(kind, b: bytes):
     if kind in (1, 2):
         return bytes(b)
+    if kind == 3:
+        return b.decode("latin-1")
     return ast.literal_eval(b.decode())
 
 
@@ -283,19 +347,27 @@ def _drain(sock):
             return out
 
 
-def _run_sync(kind, cfg, ops, impl):
+def big_datagram(n, token):
+    """the content of a large datagram (op 8), regenerated from its size and token; a valid JSON / line payload"""
+    body = bytes(97 + (i + len(token)) % 26 for i in range(n - 2))
+    return b'"' + body + b'"' if token.startswith(b"json") else b"x" + body + b"y"
+
+
+def _run_sync(kind, cfg, ops, impl, bufopt=()):
     proto = make_protocol(kind, cfg, impl)
     if impl[0] == b"sync-endpoint":
         from easynetwork.lowlevel.api_sync.endpoints.datagram import DatagramEndpoint
         from easynetwork.lowlevel.api_sync.transports.socket import SocketDatagramTransport
         ours, peer = socket.socketpair(socket.AF_UNIX, socket.SOCK_DGRAM)
-        ep = DatagramEndpoint(SocketDatagramTransport(ours, retry_interval=1.0), proto)
+        kw = dict(max_datagram_size=bufopt[0]) if bufopt else {}
+        ep = DatagramEndpoint(SocketDatagramTransport(ours, retry_interval=1.0, **kw), proto)
     else:
         from easynetwork.clients.udp import UDPNetworkClient
-        peer = socket.socket(socket.AF_INET, socket.SOCK_DGRAM)
-        peer.bind(("127.0.0.1", 0))
-        ours = socket.socket(socket.AF_INET, socket.SOCK_DGRAM)
-        ours.bind(("127.0.0.1", 0))
+        fam, host = (socket.AF_INET6, "::1") if impl[0] == b"udp-client-v6" else (socket.AF_INET, "127.0.0.1")
+        peer = socket.socket(fam, socket.SOCK_DGRAM)
+        peer.bind((host, 0))
+        ours = socket.socket(fam, socket.SOCK_DGRAM)
+        ours.bind((host, 0))
         ours.connect(peer.getsockname())
         peer.connect(ours.getsockname())
         ep = UDPNetworkClient(ours, proto)
@@ -307,6 +379,15 @@ def _run_sync(kind, cfg, ops, impl):
             if op[0] == 0:
                 peer.send(op[1])
                 out.append([])
+            elif op[0] == 8:
+                peer.send(big_datagram(op[1], op[2]))
+                out.append([])
+            elif op[0] == 9:
+                try:
+                    ep.send_packet(uncanon(kind, op[1]), timeout=1.0)
+                    out.append(_drain(peer))
+                except RuntimeError:
+                    out.append([[7]] + _drain(peer))
             elif op[0] in (1, 5):
                 pkt = uncanon(kind, op[1])
                 if op[0] == 5:
@@ -453,6 +534,13 @@ def _run_async(kind, cfg, ops, impl):
                     import errno
                     captured[-1][1].error_received(ConnectionRefusedError(errno.ECONNREFUSED, "injected: ICMP port unreachable"))
                     out.append([])
+                elif op[0] == 9:
+                    try:
+                        await ep.send_packet(uncanon(kind, op[1]))
+                        await asyncio.sleep(0)
+                        out.append(peer_drain())
+                    except RuntimeError:
+                        out.append([[7]] + peer_drain())
                 elif op[0] in (1, 5):
                     try:
                         pkt = uncanon(kind, op[1])
@@ -508,10 +596,38 @@ def async_transport_drops_empty() -> bool:
     return _DROPS
 
 
+def max_datagram_bufsize() -> int:
+    """MAX_DATAGRAM_BUFSIZE read from lowlevel/constants.py with ast (fail closed: integer literals and + - * only)"""
+    import os
+    from common import runner
+    path = os.path.join(os.environ.get("VERIF_REPO", "/repo"), "src/easynetwork/lowlevel/constants.py")
+    tree = ast.parse(open(path).read())
+
+    def ev(node):
+        if isinstance(node, ast.Constant) and type(node.value) is int:
+            return node.value
+        if isinstance(node, ast.BinOp) and isinstance(node.op, (ast.Add, ast.Sub, ast.Mult)):
+            a, b = ev(node.left), ev(node.right)
+            return a + b if isinstance(node.op, ast.Add) else a - b if isinstance(node.op, ast.Sub) else a * b
+        raise runner.TranslateError(f"MAX_DATAGRAM_BUFSIZE: unsupported expression {ast.dump(node)}")
+
+    for node in tree.body:
+        tgt = node.target if isinstance(node, ast.AnnAssign) else (node.targets[0] if isinstance(node, ast.Assign) else None)
+        if isinstance(tgt, ast.Name) and tgt.id == "MAX_DATAGRAM_BUFSIZE":
+            v = ev(node.value)
+            if v <= 0:
+                raise runner.TranslateError("MAX_DATAGRAM_BUFSIZE <= 0")
+            return v
+    raise runner.TranslateError("MAX_DATAGRAM_BUFSIZE not found in lowlevel/constants.py")
+
+
 def params():
     flag = "true" if async_transport_drops_empty() else "false"
-    return ("(* recorded by a probe of the real transport stack under the async UDP client: send(b\"\") reaches the peer? *)\n"
-            f"Definition async_transport_drops_empty : bool := {flag}.\n")
+    return ("Require Import NArith.\n"
+            "(* recorded by a probe of the real transport stack under the async UDP client: send(b\"\") reaches the peer? *)\n"
+            f"Definition async_transport_drops_empty : bool := {flag}.\n"
+            "(* lowlevel/constants.py MAX_DATAGRAM_BUFSIZE: the size the blocking datagram transports give to recv(2) *)\n"
+            f"Definition max_datagram_bufsize : N := {max_datagram_bufsize()}%N.\n")
 
 
 def endpoint_code(impl) -> int:
@@ -520,8 +636,9 @@ def endpoint_code(impl) -> int:
 
 def run_impl(inp):
     kind, cfg, ops, impl = inp[:4]
-    if impl[0] in (b"sync-endpoint", b"udp-client"):
-        return _run_sync(kind, cfg, ops, impl)
+    bufopt = inp[5] if len(inp) > 5 else []
+    if impl[0] in (b"sync-endpoint", b"udp-client", b"udp-client-v6"):
+        return _run_sync(kind, cfg, ops, impl, bufopt)
     return _run_async(kind, cfg, ops, impl)
 
 
@@ -622,7 +739,7 @@ def _schedule(rng, dgrams, sends, endpoint=b"sync-endpoint"):
     return ops, feats
 
 
-def _mk_case(kind, cfg, ops, impl, tags, feats):
+def _mk_case(kind, cfg, ops, impl, tags, feats, bufopt=()):
     # nontrivial: a malformed datagram directly followed (in arrival order) by a valid one, two items queued before a
     # receive, a cancelled receive with data available, a socket error behind an unread datagram, or consecutive sends
     # of packets that compare equal / of one object mutated in place
@@ -635,10 +752,10 @@ def _mk_case(kind, cfg, ops, impl, tags, feats):
     feats = set(feats)
     if bad_then_good:
         feats.add("bad-then-good")
-    interesting = {"burst", "bad-then-good", "recv-cancelled-with-data", "sock-error-after-unread-datagram",
+    interesting = {"burst", "bad-then-good", "partial-separator", "send-after-failed-send", "large-datagram", "small-recv-size", "recv-cancelled-with-data", "sock-error-after-unread-datagram",
                    "send-confusable", "send-mutated"}
-    return dict(input=[kind, cfg, clean, impl, endpoint_code(impl)], tags=tags + sorted(feats) + [f"datagrams{len(arr)}"],
-                nontrivial=bool(feats & interesting))
+    return dict(input=[kind, cfg, clean, impl, endpoint_code(impl), list(bufopt)],
+                tags=tags + sorted(feats) + [f"datagrams{len(arr)}"], nontrivial=bool(feats & interesting))
 
 
 JSONISH = (b"json", b"jsonl", b"b64-json", b"zlib-json", b"bz2-json", b"pickle", b"b64-pickle")
